@@ -12,7 +12,7 @@ import (
 	"github.com/fsnotify/fsnotify"
 
 	"github.com/taskctl/taskctl/internal/vh/common"
-	"github.com/taskctl/taskctl/internal/vrt"
+	"github.com/taskctl/taskctl/vrt"
 	"github.com/taskctl/taskctl/internal/watch"
 	"github.com/taskctl/taskctl/pkg/output"
 	"github.com/taskctl/taskctl/pkg/runner"
